@@ -294,6 +294,9 @@ fn err_json(program: &Program<'_>, e: &rsjsonnet_lang::program::EvalError, phase
 
 fn finish(program: &Program<'_>, host: &mut Host<'_>, mut out: Map<String, J>, req: &J) -> J {
     out.insert("traces".into(), J::Array(std::mem::take(&mut host.traces)));
+    if program.verif_gc_overcounts() > 0 {
+        out.insert("gc_overcounts".into(), json!(program.verif_gc_overcounts()));
+    }
     if wants(req, "counters") {
         out.insert("gc_runs".into(), json!(program.verif_gc_runs()));
         out.insert("gc_freed".into(), json!(program.verif_gc_freed()));
@@ -691,5 +694,5 @@ pub fn op_session(req: &J) -> J {
         out.insert("traces".into(), J::Array(std::mem::take(&mut host.traces)));
         results.push(J::Object(out));
     }
-    json!({"results": results, "sources": sources_json(&host), "gc_runs": program.verif_gc_runs()})
+    json!({"results": results, "sources": sources_json(&host), "gc_runs": program.verif_gc_runs(), "gc_overcounts": program.verif_gc_overcounts()})
 }
